@@ -1,5 +1,6 @@
 import Dcg.Proofs.Names
 import Dcg.Proofs.CaseMap
+import Dcg.Proofs.TypedDictLink
 /-
 C07 — member names are legal identifiers; wire names are preserved.
 Only property theorems live here; helper lemmas are in Dcg/Proofs/Names.lean.
@@ -318,22 +319,122 @@ theorem effective_key_not_preserved (nfkc : List Char → List Char)
   · simp [effKey, hn]
   · simp only [effKey, hn]; decide
 
-/-! ### TypedDict keys -/
+/-! ### TypedDict keys (own and inherited) -/
 
-/-- FULL STRENGTH: whichever syntax `TypedDict.render` chooses, the declared keys are the original
-property names (class syntax is chosen only when every key equals its member name; the literal
-round trip of a key written in functional syntax is C10 `typedDict_key_exact`). -/
-theorem typedDict_keys_exact (fs : List (List Char × List Char)) : tdKeys fs = fs.map (·.2) := by
+open Dcg.Model.TypedDict Dcg.Proofs.TypedDict
+
+/-- FULL STRENGTH, own members: whichever syntax `TypedDict.render` chooses, the keys it writes for the
+class's own members are the original property names (class syntax is chosen only when every key equals
+its member name; the literal round trip of a key written in functional syntax is C10 `typedDict_key_exact`).
+Covers members without a name (`required`-only) and without an original name. -/
+theorem typedDict_keys_exact (fs : List TdField) : tdKeys fs = fs.map TdField.key := by
   unfold tdKeys
   split
   · rfl
   · rename_i h
-    simp only [tdFunctional, List.any_eq_true, not_exists, not_and, Bool.not_eq_eq_eq_not,
-      Bool.not_true, Bool.not_eq_false] at h
-    apply List.map_congr_left
-    intro f hf
-    have := h f hf
-    simp only [tdValid, Bool.and_eq_true, beq_iff_eq] at this
-    exact this.2.symm
+    have hf : tdFunctional fs = false := by simpa using h
+    have := class_syntax_entries hf
+    have h2 := congrArg (List.map Prod.fst) this
+    simpa [List.map_map, Function.comp_def, TdField.entry] using h2
+
+/-- FULL STRENGTH, `TypedDict.all_fields` (the member list of the functional syntax): for every class tree —
+any number of bases, any depth, bases that are not TypedDicts — the keys it lists are, in order, the wire
+keys of the schemas the class extends followed by its own. Members are identified by nothing: none is
+skipped because its identifier (or anything else) coincides with another member's. -/
+theorem typedDict_all_fields_keys (c : TdClass) : c.allFields.map TdField.key = c.wireKeys :=
+  allFields_keys c
+
+/-- FULL STRENGTH, inheritance: the class object Python builds from the rendered text — a dict display over
+`all_fields` in functional syntax, the annotations of the Python base classes plus the own ones in class
+syntax, each class of the tree in the syntax ITS OWN members call for — has every key exactly once, and its
+key set is exactly the set of wire keys of the schema: inherited and own, nothing lost, nothing merged. -/
+theorem typedDict_inherited_keys_exact (c : TdClass) :
+    (c.rendered.map (·.1)).Nodup ∧ ∀ k, k ∈ c.rendered.map (·.1) ↔ k ∈ c.wireKeys :=
+  ⟨rendered_nodup c, mem_rendered_keys c⟩
+
+/-- the same, one level unfolded: the key set of a class is (keys of its base TypedDicts) ∪ (own wire keys) -/
+theorem typedDict_keys_base_union_own (bases : List TdClass) (fields : List TdField) (k : List Char) :
+    k ∈ (TdClass.cls bases fields).rendered.map (·.1) ↔
+      (∃ b ∈ bases, k ∈ b.rendered.map (·.1)) ∨ k ∈ fields.map TdField.key := by
+  rw [mem_rendered_keys]
+  simp only [TdClass.wireKeys, List.mem_append, mem_wireKeysL]
+  constructor
+  · rintro (⟨b, hb, hk⟩ | h)
+    · exact Or.inl ⟨b, hb, (mem_rendered_keys b k).mpr hk⟩
+    · exact Or.inr h
+  · rintro (⟨b, hb, hk⟩ | h)
+    · exact Or.inl ⟨b, hb, (mem_rendered_keys b k).mp hk⟩
+    · exact Or.inr h
+
+/-- non-vacuity, the shape that matters: the base has `unit-price`, the derived class declares the DIFFERENT
+key `unit_price` (same identifier) and `valid-until` (forces functional syntax): all three are keys -/
+example :
+    let base := TdClass.mk' [] [⟨some "unit_price".toList, some "unit-price".toList, 0⟩]
+    let derived := TdClass.mk' [base] [⟨some "unit_price".toList, some "unit_price".toList, 1⟩,
+                                       ⟨some "valid_until".toList, some "valid-until".toList, 2⟩]
+    derived.rendered = [("unit-price".toList, 0), ("unit_price".toList, 1), ("valid-until".toList, 2)] := by
+  decide +kernel
+
+/-- FULL STRENGTH: the type found under a key is that of the LAST declaration of the key along `all_fields`
+(bases in order, then the class), whichever syntax each class of the tree is written in… -/
+theorem typedDict_key_type_last_declaration (c : TdClass) (k : List Char) :
+    dictGet k c.rendered = lastVal k (c.allFields.map TdField.entry) :=
+  rendered_get c k
+
+/-- …so a key the class declares again (e.g. to make it required) carries the class's own declaration -/
+theorem typedDict_own_declaration_wins (bases : List TdClass) (fields : List TdField) (k : List Char) (v : Nat)
+    (h : lastVal k (fields.map TdField.entry) = some v) :
+    dictGet k (TdClass.cls bases fields).rendered = some v := by
+  rw [rendered_get]
+  simp only [TdClass.allFields, List.map_append, lastVal_append, h, Option.some_or]
+
+/-- non-vacuity: a genuine re-declaration of the inherited key `unit-price`: one key, the derived type -/
+example :
+    let base := TdClass.mk' [] [⟨some "unit_price".toList, some "unit-price".toList, 0⟩, ⟨some ['x'], some ['x'], 1⟩]
+    let derived := TdClass.mk' [base] [⟨some "unit_price".toList, some "unit-price".toList, 2⟩]
+    derived.rendered = [("unit-price".toList, 2), (['x'], 1)] := by
+  decide +kernel
+
+example : lastVal "unit-price".toList
+    ([⟨some "unit_price".toList, some "unit-price".toList, 2⟩].map TdField.entry) = some 2 := by decide +kernel
+
+/-- The members of ONE `parse_object_fields` call all survive the model constructor (`_validate_fields` drops
+later members with a name seen before: by `fields_distinct` there is none) and their keys are the property
+names — for names the user's `aliases` map does not rename. -/
+theorem typedDict_own_members_survive (E : Env) (k : Kind) (cfg : Cfg) (props : List (List Char × Bool))
+    (excl : List (List Char)) (fs : List FieldOut) (ex : List (List Char))
+    (hal : ∀ p ∈ props, cfg.aliases.lookup p.1 = none)
+    (h : foldProps E k cfg props excl = .ok (fs, ex)) :
+    validateFields (tdOwn props fs) = tdOwn props fs ∧ (tdOwn props fs).map TdField.key = props.map (·.1) := by
+  have hlen : props.length = fs.length := by
+    have := congrArg List.length (excludes_invariant E k cfg props excl fs ex h).2.2
+    simpa using this.symm
+  refine ⟨validateFields_id _ ?_, tdOwn_keys props fs hlen⟩
+  rw [tdOwn_names props fs hlen]
+  exact (fields_distinct E k cfg props excl fs ex hal h).1
+
+/-- non-vacuity: the three colliding properties `a-`, `a_`, `a+` of the example after `excludes_invariant`:
+the fold succeeds (hypothesis `h`), no alias-map hit (`hal`), three members with three different names survive -/
+example :
+    validateFields (tdOwn [(['a', '-'], true), (['a', '_'], false), (['a', '+'], false)]
+      [((['a', '_'], some ['a', '-']), true), ((['a', '_', '_', '1'], some ['a', '_']), false),
+       ((['a', '_', '_', '2'], some ['a', '+']), false)]) =
+    [⟨some ['a', '_'], some ['a', '-'], 0⟩, ⟨some ['a', '_', '_', '1'], some ['a', '_'], 0⟩,
+     ⟨some ['a', '_', '_', '2'], some ['a', '+'], 0⟩] := by decide +kernel
+
+/-- …and that is as far as it goes: members of one class declared in SEVERAL places of its schema (two inline
+objects of an `allOf`, an `allOf` item plus sibling `properties`) come from separate `parse_object_fields`
+calls, each starting with empty excludes. The different keys `sku-` and `sku_` both become the member `sku_`,
+and the constructor drops the second: its key is not a key of the class (known finding
+C07-ALLOF-SPLIT-MEMBERS; the full statement "every declared key of the schema is a key" is false there). -/
+theorem split_declarations_lose_key :
+    foldProps pyEnv .pydantic {} [("sku-".toList, false)] [] =
+      .ok ([(("sku_".toList, some "sku-".toList), false)], ["sku_".toList]) ∧
+    foldProps pyEnv .pydantic {} [("sku_".toList, false)] [] =
+      .ok ([(("sku_".toList, none), false)], ["sku_".toList]) ∧
+    (TdClass.mk' [] (tdOwn [("sku-".toList, false)] [(("sku_".toList, some "sku-".toList), false)] ++
+                     tdOwn [("sku_".toList, false)] [(("sku_".toList, none), false)])).rendered.map (·.1)
+      = ["sku-".toList] := by
+  refine ⟨by decide +kernel, by decide +kernel, by decide +kernel⟩
 
 end Dcg.Props.C07
